@@ -82,6 +82,10 @@ def gen(tier, rng, harness=None):
     # cached-type state (not part of the slot model): fields feeding a lazily computed type are edited after construction, with and without
     # interleaved pure observers (Type / String / Ident): the printed module must not depend on the observers
     lines = ["!hist.fobs %s" % k for k in FIELD_KINDS]
+    # renaming after a print / after pure queries of a constant expression (harness/ops_rename.go)
+    for name in C.run_lines([harness, "run"], ["rename.list"])[0].split(","):
+        for mode in "012":
+            lines.append("!rename.ok %s %s" % (name, mode))
     # every sequence of up to 3 (quick) / 4 (thorough) edits out of three values per field (e.g. address space 5, 0, 3): a value that an observer
     # cached must be overwritten by the next edit, including the edit back to the zero value
     for k in FIELD_KINDS:
